@@ -558,6 +558,9 @@ func (w *World) boundsDiscipline(P string, f *Facts, r *Roles) {
 						why = "match position plus len(substring) of a successful strings.Index"
 					}
 				}
+				if why == "" && fn.Parent() != nil && literalBoundSafe(fn, idx, base) {
+					why = "bound and string are parameters of a function literal; where the helper it was handed to calls it, the bound is the (non-negative) position strings.Index found in the string passed with it, that position plus the length of the match, or guarded by the length"
+				}
 				if why == "" && kind == "index" && w.paramIndexSafeAtCallers(fn, idx, base) {
 					why = "index and slice are parameters; at every call site the index is the counter of a loop over the slice passed with it"
 				}
@@ -1597,4 +1600,63 @@ func (w *World) paramIndexSafeAtCallers(fn *ssa.Function, idx, base ssa.Value) b
 		})
 	})
 	return n > 0 && all
+}
+
+// literalBoundSafe: base[idx] / base[:idx] inside a function literal whose parameters they are: safe when at every call
+// of the literal (the helper it is handed to calls its function parameter) the bound passed is safe for the string
+// passed: strings.Index of that very string tested non-negative, that plus a length of the match, or length-guarded.
+func literalBoundSafe(lit *ssa.Function, idx, base ssa.Value) bool {
+	pi, ok1 := idx.(*ssa.Parameter)
+	pb, ok2 := base.(*ssa.Parameter)
+	if !ok1 || !ok2 {
+		return false
+	}
+	ii, bi := -1, -1
+	for k, p := range lit.Params {
+		if p == pi {
+			ii = k
+		}
+		if p == pb {
+			bi = k
+		}
+	}
+	if ii < 0 || bi < 0 {
+		return false
+	}
+	sites := literalCallSites(lit)
+	if len(sites) == 0 {
+		return false
+	}
+	indexOf := func(v, s ssa.Value) bool {
+		c, ok := v.(*ssa.Call)
+		return ok && isIndexCallResult(c) && len(c.Call.Args) == 2 && c.Call.Args[0] == s
+	}
+	for _, c := range sites {
+		if ii >= len(c.Call.Args) || bi >= len(c.Call.Args) {
+			return false
+		}
+		ai, ab := c.Call.Args[ii], c.Call.Args[bi]
+		switch {
+		case indexOf(ai, ab) && nonNegativeGuard(c.Block(), ai):
+		case lenGuarded(c.Block(), ai, ab):
+		default:
+			// position of the match plus the length of what was searched for
+			bo, ok := ai.(*ssa.BinOp)
+			if !ok || bo.Op != token.ADD {
+				return false
+			}
+			pos, ln := bo.X, bo.Y
+			if !indexOf(pos, ab) {
+				pos, ln = bo.Y, bo.X
+			}
+			lc, isLen := ln.(*ssa.Call)
+			if !indexOf(pos, ab) || !isLen || !isLenOf(lc, nil) || !nonNegativeGuard(c.Block(), pos) {
+				return false
+			}
+			if lc.Call.Args[0] != pos.(*ssa.Call).Call.Args[1] {
+				return false
+			}
+		}
+	}
+	return true
 }
